@@ -244,6 +244,8 @@ class Screen(_raw_display_base.Screen):
 
         if self._old_signal_keys:
             self.tty_signal_keys(*self._old_signal_keys, fd)
+            # putting the keys back is not an application setting: the next start() must record what it begins with
+            self._signal_keys_set = False
 
         super()._stop()
 
